@@ -18,6 +18,7 @@ open Nervus Nervus.Crash
     counted, and the ordering facts the step model is built on are as extracted -/
 theorem source_ok :
     cfgOfSource.syncSlot = true ∧ cfgOfSource.syncCreate = true ∧ cfgOfSource.freshZero = true ∧
+    cfgOfSource.tailTolerant = true ∧
     Generated.commitSyncsLogBeforeApply = true ∧ Generated.compactSyncsPagesBeforeManifest = true ∧
     Generated.closeSyncsPagesBeforeRewrite = true ∧ Generated.rewriteSyncsTmpBeforeRename = true ∧
     Generated.compactCheckpointIsMaxRunTxid = true ∧ Generated.closeCheckpointIsLastTxid = true ∧
@@ -82,17 +83,17 @@ theorem open_every_step {T : List Tx} {fs : FS} (hc : Closed T fs) :
 
 /-- **C02 (all histories: `crash_prefix`)**: starting from a freshly created database, for EVERY
     list of incarnations — open, any commits, death inside the open or inside a commit at ANY I/O
-    step or between operations, in ANY crash mode — iterated any number of times, provided external
-    ids are fresh and no commit appends behind a torn log tail (`HistOK`: decidable on the model;
-    the second condition is the trigger of C01-torn-tail-append and is vacuous once C17's repair is
-    in the tree), the next open succeeds and its content is that of an admissible transaction
-    list: every acknowledged commit, and each commit in flight at a death entirely or not at all,
-    in commit order. -/
-theorem crash_prefix (rounds : List Round) (hok : HistOK cfgOfSource (created cfgOfSource) [] rounds) :
+    step or between operations, in ANY crash mode — iterated any number of times, with fresh
+    non-zero external ids (what the API guarantees; no other precondition: the torn-tail trigger of
+    the former finding C01-torn-tail-append is gone with C17's repair, `source_ok`), the next open
+    succeeds and its content is that of an admissible transaction list: every acknowledged
+    commit, and each commit in flight at a death entirely or not at all, in commit order. -/
+theorem crash_prefix (rounds : List Round) (hok : FreshHist [] rounds) :
     ∃ T m fs', Spec.Admissible [] (rounds.map Round.obs) T ∧
       recover cfgOfSource (afterRounds cfgOfSource (created cfgOfSource) rounds) = .ok (m, fs') ∧
       Spec.Content.same (content m fs'.pv) (Spec.run T) :=
-  crash_recover (cfg := cfgOfSource) source_ok.1 rounds [] (created cfgOfSource) [] created_closed (by simp [allNodes]) hok
+  crash_recover (cfg := cfgOfSource) source_ok.1 rounds [] (created cfgOfSource) [] created_closed (by simp [allNodes])
+    (histOK_of_fresh source_ok.2.2.2.1 rounds _ _ hok)
 
 /-! non-vacuity: a concrete two-incarnation history that meets `HistOK`, with a power loss in the
     middle of the node-table phase of a two-node commit (unsynced meta write persisted) -/
@@ -102,7 +103,7 @@ def ex_tx3 : Tx := ⟨[3001], [], [30000]⟩
 def ex_rounds : List Round :=
   [⟨[ex_tx1], .inCommit ex_tx2 29, .power [.keep, .drop] 0 false⟩, ⟨[ex_tx3], .idle, .proc⟩]
 
-example : HistOK cfgOfSource (created cfgOfSource) [] ex_rounds := by decide
+example : FreshHist [] ex_rounds := by decide
 example : (match recover cfgOfSource (afterRounds cfgOfSource (created cfgOfSource) ex_rounds) with
     | .ok (m, fs) => some (content m fs.pv)
     | .error _ => none) =
